@@ -40,6 +40,23 @@ def tset(xs):
     return "{" + ", ".join(str(x) for x in xs) + "}"
 
 
+def parallel(*thunks):
+    """run independent phases (TLC model check, TLC generator, go build) concurrently; re-raise the first exception"""
+    out, errs = [None] * len(thunks), []
+
+    def wrap(i, f):
+        try:
+            out[i] = f()
+        except BaseException as e:      # noqa
+            errs.append(e)
+    ths = [threading.Thread(target=wrap, args=(i, f)) for i, f in enumerate(thunks)]
+    [t.start() for t in ths]
+    [t.join() for t in ths]
+    if errs:
+        raise errs[0]
+    return out
+
+
 # ------------------------------------------------------------------ sharded trace validation
 def _groups(events):
     """split at Reset events (each group is self-contained)"""
@@ -201,16 +218,17 @@ def run(ctx):
                        "T: random imports (length, chunker, width, leaf kind, CID version/hash, mode, mtime). "
                        "non-trivial = a file of >= 2 chunks (the DAG has internal nodes)")
     q = ctx.quick
-    # M
-    ctx.tlc_mc(SPEC, "MCUnixFSFile.tla", "MCUnixFSFile.cfg" if q else "MCUnixFSFileBig.cfg", timeout=1500,
-               coverage=not q, workers=4 if q else 12)
-    # G
+    ctx.specdir(SPEC)
     cfg = write_gen_cfg(ctx, "gen_import.cfg", Kind='"import"', GN=40, GM=0, GWidths=tset([2, 3, 4, 5]), PartSel=0,
-                        SmallN=8 if q else 40, SmallM=0, SmallW=5, Small2N=0, Small2M=0, SampleMod=3 if q else 1, Salt=ctx.seed)
-    cases = ctx.tlc_gen(SPEC, "GenUnixFSFile.tla", cfg, timeout=900)
-    if not cases:
+                        SmallN=8 if q else 40, SmallM=0, SmallW=5, Small2N=0, Small2M=0, SampleMod=5 if q else 1, Salt=ctx.seed)
+    # M, G-gen and the harness build are independent: run them concurrently
+    _, cases, binp = parallel(
+        lambda: ctx.tlc_mc(SPEC, "MCUnixFSFile.tla", "MCUnixFSFile.cfg" if q else "MCUnixFSFileBig.cfg", timeout=2400,
+                           coverage=not q, workers=4 if q else 10),
+        lambda: ctx.tlc_gen(SPEC, "GenUnixFSFile.tla", cfg, timeout=1500, workers=2),
+        lambda: ctx.go_build(PKG, HARNESS))
+    if not cases or ctx.brokens:
         return
-    binp = ctx.go_build(PKG, HARNESS)
     if ctx.replay_behaviours(binp, "TestVerifC07", PKG, cases, name="import",
                              nontrivial=lambda c: len(c["sz"]) >= 2) is None:
         return
